@@ -265,8 +265,7 @@ theorem walkParts_found (n : Str) (cs : List (Str × PNode)) (part : Str) (rest 
 
 /-- the environment `parse` builds from a level-3 header `h` located at `start + lv3off` -/
 def envOf (lower : Str → Str) (ci : Bool) (file : Bytes) (start lv3off : Nat) (h : Bytes) : Env :=
-  ⟨lower, ci, slice file (start + lv3off + u32 h 12) (u32 h 16), slice file (start + lv3off + u32 h 28) (u32 h 32),
-   u32 h 16 / 0x18, u32 h 32 / 0x20⟩
+  mkEnv lower ci file (start + lv3off) (u32 h 12) (u32 h 16) (u32 h 28) (u32 h 32)
 
 /-- the level-3 header checks of the constructor -/
 def headerOK (h : Bytes) : Prop :=
@@ -281,23 +280,25 @@ theorem parse_bare (lower : Str → Str) (ci : Bool) (file : Bytes) (start : Nat
     (hok : headerOK (slice (slice file start 0x5C) 0 0x28))
     (hrep : repDir (envOf lower ci file start 0 (slice (slice file start 0x5C) 0 0x28))
               (slice (envOf lower ci file start 0 (slice (slice file start 0x5C) 0 0x28)).dm 0 0x18) t = true)
-    (hd : t.numDirs ≤ u32 (slice (slice file start 0x5C) 0 0x28) 16 / 0x18)
-    (hf : t.numFiles ≤ u32 (slice (slice file start 0x5C) 0 0x28) 32 / 0x20)
+    (hd : t.numDirs ≤ (envOf lower ci file start 0 (slice (slice file start 0x5C) 0 0x28)).maxDirs)
+    (hf : t.numFiles ≤ (envOf lower ci file start 0 (slice (slice file start 0x5C) 0 0x28)).maxFiles)
     (hdist : Distinct (envOf lower ci file start 0 (slice (slice file start 0x5C) 0 0x28)) t) :
     parse lower ci file start =
       .ok ⟨.dir [0x52, 0x4F, 0x4F, 0x54] (shapeContents (envOf lower ci file start 0 (slice (slice file start 0x5C) 0 0x28)) t),
            0, 0 + u32 (slice (slice file start 0x5C) 0 0x28) 36⟩ := by
   generalize hh : slice (slice file start 0x5C) 0 0x28 = h at *
   obtain ⟨h1, h2, h3, h4, h5, h6, h7⟩ := hok
-  have hw := walk_represented (envOf lower ci file start 0 h) t (2 * (u32 h 16 / 0x18) + u32 h 32 / 0x20 + 3) hrep
+  have hw := walk_represented (envOf lower ci file start 0 h) t
+    (2 * (envOf lower ci file start 0 h).maxDirs + (envOf lower ci file start 0 h).maxFiles + 3) hrep
     (needIter_le t _ _ hd hf) hd hf hdist
   unfold parse
   simp only [hmagic, Bool.false_eq_true, if_false, hh, h1, ne_eq, not_true_eq_false, h2, h3, h4, h5, h6, h7, or_self,
     Nat.add_zero]
   simp only [envOf, Nat.add_zero] at hw
-  rw [hw]
   have h3' : ¬ (u32 h 4 < 40) := by rw [h2] at h3; exact h3
-  simp only [h3', or_self, if_false, envOf, Nat.add_zero]
+  simp only [h3', or_self, if_false]
+  rw [hw]
+  simp only [envOf, Nat.add_zero]
 
 end Romfs
 end Pyctr
